@@ -91,6 +91,10 @@ def run(ctx):
 # ------------------------------------------------------------------------------------------------
 def encoding(ctx, crate, crs, tag):
     R = "encoding" + tag
+    # a solvable / package that is marked as encoded is queued for encoding on every path (and only then): the mark is what
+    # run_sat trusts when it looks for selected solvables that still need clauses
+    ctx.guard(R, mech.dedup_guard, ctx, "encoding", crate, crs, ENC + "queue_solvable", "clauses_added_for_solvable", tag)
+    ctx.guard(R, mech.dedup_guard, ctx, "encoding", crate, crs, ENC + "queue_package", "clauses_added_for_package", tag)
     # ---- dependencies consumer
     b = body_by_key(crate, ENC + "on_dependencies_available")
     if b is None:
